@@ -241,6 +241,9 @@ def plan_C16(ctx):
         return {"k": "obj", "nil": False, "m": ms}
     sweep = list(range(100, 141)) + ([] if ctx.quick else list(range(16365, 16390)))
     holder = [c for c in cases if c["ev"] == "codec" and c["T"]["k"] == "struct"][0]
+    skipped = [c for c in cases if c["ev"] == "evolve"][0]
+    def lacking_for(x):
+        return skipped["S2"]
     for n in sweep:
         for x in (jarr([jarr([jstr(n), jstr(1)]), jstr(2)]), jobj([[[111], jobj([[[107, 107], jstr(n)]])], [[112], jstr(3)]]),
                   jarr([jobj([[[], jarr([jstr(n)])]])])):
@@ -250,6 +253,17 @@ def plan_C16(ctx):
             ht["f"][1]["t"] = {"k": "jsonarr" if x["k"] == "arr" else "jsonobj"}
             hv[1] = x
             cases.append({"ev": "codec", "T": ht, "v": hv, "u": ["len-field"]})
+            # ... and the same holder read by a struct that lacks the field: the reader has to skip it
+            cases.append({"ev": "evolve", "S": ht, "S2": lacking_for(x), "v": hv, "prior": skipped["prior"], "u": ["len-skipped"]})
+    # entry counts around 127 / 128 (two-byte counts), at top level, as a field and skipped
+    for n in ([126, 127, 128, 129, 130] if ctx.quick else list(range(120, 136)) + [255, 256, 257]):
+        for x in (jarr([jstr(1)] * n), jobj([[[97 + (j // 26) % 26, 97 + j % 26, 48 + j // 676], {"k": "int", "i": {"neg": False, "mag": [j % 128] if j % 128 else []}}] for j in range(n)])):
+            hv = list(holder["v"])
+            ht = json.loads(json.dumps(holder["T"]))
+            ht["f"][1]["t"] = {"k": "jsonarr" if x["k"] == "arr" else "jsonobj"}
+            hv[1] = x
+            cases.append({"ev": "codec", "T": ht, "v": hv, "u": ["count-field"]})
+            cases.append({"ev": "evolve", "S": ht, "S2": lacking_for(x), "v": hv, "prior": skipped["prior"], "u": ["count-skipped"]})
     log("design check MCJsonAny: %d states, %d cases" % (ctx.states, len(cases)))
     for c in cases:
         c["cfg"] = fam_codec.CFGS["jsonany"]
